@@ -65,6 +65,40 @@ class SpecCtx(object):
     def p(self):
         return self.it.p
 
+    # -- shared oracles: the spec side and the body side (contract applied at a call site) of an ASSUMED
+    #    abstract contract must talk about the same unknowns; names are derived from (tag, call index per side)
+    def _ora_name(self, tag):
+        g = self.it.p.ghost.setdefault('ora_idx', {})
+        k = (self.mode, tag)
+        i = g.get(k, 0)
+        g[k] = i + 1
+        return 'ora!%s!%d' % (tag, i)
+
+    def ora_bool(self, tag):
+        return self.it.p.branch(z3.Bool(self._ora_name(tag)))
+
+    def ora_int(self, tag, lo, hi):
+        v = z3.Int(self._ora_name(tag))
+        self.it.p.assume(z3.And(v >= lo, v <= hi))
+        return SNum(v)
+
+    def ora_choice(self, tag, n):
+        v = z3.Int(self._ora_name(tag))
+        self.it.p.assume(z3.And(v >= 0, v < n))
+        for i in range(n - 1):
+            if self.it.p.branch(v == i):
+                return i
+        return n - 1
+
+    # -- outcome-directed alternatives: the spec allows either behaviour; which one applies is read off
+    #    the body's observable outcome (verify) / is a nondeterministic choice for the caller (apply)
+    def may(self, tag, observe):
+        name = self._ora_name('alt!' + tag)
+        choice = self.it.p.branch(z3.Bool(name))
+        if self.mode == 'verify':
+            self.it.p.ghost.setdefault('alts', []).append((name, choice, observe))
+        return choice
+
     def requires(self, cond, name):
         """precondition: assumed when the function itself is verified, an obligation at every call site"""
         if isinstance(cond, (SBool,)):
@@ -149,7 +183,12 @@ def same_value(a, b, goals, what):
         if not isinstance(a, (SNum, SBool)) and not isinstance(b, (SNum, SBool)):
             return a == b and (isinstance(a, float) == isinstance(b, float) or True)
         if boola and boolb:
-            goals.append((what, to_bool_term(a) == to_bool_term(b)))
+            eq = z3.simplify(to_bool_term(a) == to_bool_term(b))
+            if z3.is_true(eq):
+                return True
+            if z3.is_false(eq):
+                return False
+            goals.append((what, eq))
             return True
         ta, tb = to_term(a), to_term(b)
         if ta.sort().kind() != tb.sort().kind():
@@ -157,7 +196,12 @@ def same_value(a, b, goals, what):
             tb = z3.ToReal(tb) if tb.sort().kind() != z3.Z3_REAL_SORT else tb
         if ta.eq(tb):
             return True
-        goals.append((what, ta == tb))
+        eq = z3.simplify(ta == tb)
+        if z3.is_true(eq):
+            return True
+        if z3.is_false(eq):
+            return False
+        goals.append((what, eq))
         return True
     if isinstance(a, (bytes, bytearray, SBytes)) and isinstance(b, (bytes, bytearray, SBytes)):
         if isinstance(a, (bytes, bytearray)) and isinstance(b, (bytes, bytearray)):
@@ -401,6 +445,10 @@ def verify(prog, qual, build, spec, light=False, inline=None, name=None, max_pat
                 out = Outcome('return', v)
             except PyExc as e:
                 out = Outcome('raise', e.val)
+            for (aname, choice, observe) in p.ghost.get('alts', []):
+                if bool(observe(out, p.effects[eff0:])) != bool(choice):
+                    # the other alternative of the spec is the one that speaks about this outcome
+                    return Outcome('cut')
             out.extra['spec'] = sp
             out.extra['ctx'] = bctx
             out.extra['args'] = vals
